@@ -1,8 +1,10 @@
 package packet
 
 import (
+	"fmt"
 	"sort"
 
+	ibc "github.com/cosmos/ibc-go/v11/modules/core"
 	channeltypes "github.com/cosmos/ibc-go/v11/modules/core/04-channel/types"
 	"github.com/cosmos/ibc-go/v11/modules/core/exported"
 	ibctm "github.com/cosmos/ibc-go/v11/modules/light-clients/07-tendermint"
@@ -115,10 +117,83 @@ func (w *World) project(c string) ChainSt {
 	default:
 		st.Status = "Other"
 	}
+	st.App, st.Coins = w.appState(c)
+	st.Meta = w.meta(c)
 	st.Dig = lib.DigestOf(ctx, chain.GetSimApp().GetKey(exported.StoreKey))
 	return st
 }
 
 func (w *World) State() State {
 	return State{Now: w.now, Ch: map[string]ChainSt{"A": w.project("A"), "B": w.project("B")}}
+}
+
+// meta reads module state that is not part of the packet paths but that relaying depends on.
+func (w *World) meta(c string) Meta {
+	chain := w.ch[c]
+	ctx := chain.GetContext()
+	k := chain.App.GetIBCKeeper()
+	m := Meta{Reexport: w.reexport[c]}
+	m.Creator = k.ClientKeeper.GetClientCreator(ctx, w.clientID(c)).String()
+	m.Relayers = fmt.Sprint(k.ClientV2Keeper.GetConfig(ctx, w.clientID(c)).AllowedRelayers)
+	if cpi, ok := k.ClientV2Keeper.GetClientCounterparty(ctx, w.pathID(c)); ok {
+		m.Counterparty = fmt.Sprintf("%s|%x", cpi.ClientId, cpi.MerklePrefix)
+	}
+	if base, ok := k.ChannelKeeperV2.GetClientForAlias(ctx, w.pathID(c)); ok {
+		m.Alias = base
+	}
+	if w.kind != "V2" {
+		if conn, ok := k.ConnectionKeeper.GetConnection(ctx, w.ep[c].ConnectionID); ok {
+			m.ConnState = fmt.Sprintf("%s|%s|%s|%d|%v", conn.State, conn.ClientId, conn.Counterparty.ConnectionId, conn.DelayPeriod, conn.Versions)
+		}
+	}
+	m.NextIDs = fmt.Sprintf("%d/%d/%d", k.ClientKeeper.GetNextClientSequence(ctx), k.ConnectionKeeper.GetNextConnectionSequence(ctx), k.ChannelKeeper.GetNextChannelSequence(ctx))
+	m.ConsMeta = lib.StoreDigest(k.ClientKeeper.ClientStore(ctx, w.clientID(c)))
+	return m
+}
+
+// Det records, for both chains, the application hash of the last block, the digest of the exported IBC genesis
+// and a digest of list queries in the order the keepers return them (no sorting by the harness).
+func (w *World) Det() *Det {
+	d := &Det{AppHash: map[string]string{}, Genesis: map[string]string{}, Queries: map[string]string{}}
+	for _, c := range []string{"A", "B"} {
+		chain := w.ch[c]
+		ctx := chain.GetContext()
+		k := chain.App.GetIBCKeeper()
+		d.AppHash[c] = lib.Hex(chain.App.LastCommitID().Hash)
+		func() {
+			defer func() {
+				if r := recover(); r != nil {
+					d.Genesis[c] = "panic"
+				}
+			}()
+			d.Genesis[c] = lib.Hex(sh(chain.App.AppCodec().MustMarshalJSON(ibc.ExportGenesis(ctx, *k))))[:16]
+		}()
+		var q []byte
+		for _, ch := range k.ChannelKeeper.GetAllChannels(ctx) {
+			q = append(q, []byte(ch.PortId+"/"+ch.ChannelId+";")...)
+		}
+		for _, cn := range k.ConnectionKeeper.GetAllConnections(ctx) {
+			q = append(q, []byte(cn.Id+";")...)
+		}
+		for _, cl := range k.ClientKeeper.GetAllGenesisClients(ctx) {
+			q = append(q, []byte(cl.ClientId+";")...)
+		}
+		for _, ps := range k.ChannelKeeper.GetAllPacketCommitments(ctx) {
+			q = append(q, []byte(fmt.Sprintf("%s/%s/%d;", ps.PortId, ps.ChannelId, ps.Sequence))...)
+		}
+		for _, ps := range k.ChannelKeeper.GetAllPacketAcks(ctx) {
+			q = append(q, []byte(fmt.Sprintf("%s/%s/%d;", ps.PortId, ps.ChannelId, ps.Sequence))...)
+		}
+		for _, cs := range k.ClientKeeper.GetAllConsensusStates(ctx) {
+			q = append(q, []byte(cs.ClientId+":")...)
+			for _, h := range cs.ConsensusStates {
+				q = append(q, []byte(h.Height.String()+",")...)
+			}
+		}
+		for _, route := range chain.GetSimApp().IBCKeeper.PortKeeper.Router.Keys() {
+			q = append(q, []byte(route+";")...)
+		}
+		d.Queries[c] = lib.Hex(sh(q))[:16]
+	}
+	return d
 }
